@@ -181,6 +181,16 @@ func (e *Engine) key(v ssa.Value) any {
 			if fa, ok := x.X.(*ssa.FieldAddr); ok {
 				return e.loadKey(x, fa)
 			}
+			// a local that is only ever filled by one library call that does not keep the pointer
+			// (binary.Read(r, order, &size)): every load after the call sees the same value
+			if a, ok := x.X.(*ssa.Alloc); ok {
+				if call := filledOnceBy(a); call != nil && kit.Dominates(call, x) {
+					key := fmt.Sprintf("filled:%p", a)
+					e.keyType[key] = x.Type()
+					e.keyName[key] = a.Comment
+					return key
+				}
+			}
 			// element load with a constant index from a slice that the function never writes through
 			if ia, ok := x.X.(*ssa.IndexAddr); ok {
 				if k, isC := kit.ConstInt(ia.Index); isC && !e.storesThroughIndex(outer(x.Parent()), ia.X.Type()) {
@@ -816,6 +826,13 @@ func (e *Engine) globalFacts(fn *ssa.Function) []gfact {
 			}
 			return
 		case "builtin.copy":
+			// language specification: copy returns min(len(dst), len(src))
+			c := call
+			valid := func(b *ssa.BasicBlock, i int) bool { return instrDominatesPoint(c, b, i) }
+			why := "copy returns the number of elements copied: 0 <= n <= len(dst), len(src)"
+			out = append(out, gfact{Fact{e.Lin(call), why}, valid})
+			out = append(out, gfact{Fact{e.LenOf(call.Call.Args[0]).Sub(e.Lin(call)), why}, valid})
+			out = append(out, gfact{Fact{e.LenOf(call.Call.Args[1]).Sub(e.Lin(call)), why}, valid})
 			return
 		case "bytes.IndexByte", "bytes.LastIndexByte", "bytes.Index", "bytes.LastIndex", "strings.IndexByte", "strings.LastIndexByte":
 			c := call
@@ -878,7 +895,38 @@ func (e *Engine) globalFacts(fn *ssa.Function) []gfact {
 func (e *Engine) Prove(g Lin, b *ssa.BasicBlock, idx int) (bool, string) {
 	save := e.cur
 	defer func() { e.cur = save }()
-	return e.prove(g, e.FactsAt(b, idx), 0)
+	facts := e.FactsAt(b, idx)
+	if e.at != nil {
+		// function-level facts were stated before the point was known: restate what they say about a
+		// phi by the input that is the only one possible here (the success return of an expanded helper)
+		for i, f := range facts {
+			facts[i].E = e.restate(f.E)
+		}
+		g = e.restate(g)
+	}
+	return e.prove(g, facts, 0)
+}
+
+func (e *Engine) restate(l Lin) Lin {
+	out := l
+	for s, c := range l.T {
+		ph, ok := s.K.(*ssa.Phi)
+		if !ok || ph.Parent() != e.at.Parent() {
+			continue
+		}
+		r := kit.RootAt(ph, e.at)
+		if r == ssa.Value(ph) {
+			continue
+		}
+		var sub Lin
+		if s.Len {
+			sub = e.LenOf(r)
+		} else {
+			sub = e.Lin(r)
+		}
+		out = out.Sub(Var(s).Scale(c)).Add(sub.Scale(c))
+	}
+	return out
 }
 
 func (e *Engine) prove(g Lin, facts []Fact, depth int) (bool, string) {
@@ -1055,4 +1103,32 @@ func (e *Engine) describeFacts(fs []Fact) string {
 		xs = append(xs, f.E.String(e.Name)+" >= 0")
 	}
 	return "available facts: " + strings.Join(xs, "; ")
+}
+
+// FillFuncs are library functions that write through a pointer argument and do not retain it.
+var FillFuncs = map[string]bool{"encoding/binary.Read": true}
+
+// filledOnceBy returns the single call of a FillFuncs function that local a is handed to, if a is otherwise
+// only loaded: never stored to, never captured, its address never kept.
+func filledOnceBy(a *ssa.Alloc) *ssa.Call {
+	var fill *ssa.Call
+	for _, r := range kit.Referrers(a) {
+		switch x := r.(type) {
+		case *ssa.UnOp, *ssa.DebugRef:
+		case *ssa.MakeInterface:
+			for _, u := range kit.Referrers(x) {
+				call, ok := u.(*ssa.Call)
+				if _, isDbg := u.(*ssa.DebugRef); isDbg {
+					continue
+				}
+				if !ok || !FillFuncs[kit.CalleeName(call)] || fill != nil {
+					return nil
+				}
+				fill = call
+			}
+		default:
+			return nil
+		}
+	}
+	return fill
 }
